@@ -5,8 +5,8 @@ BO_HDR = "From SioV Require Import Base.GoSem Sio.Backoff Sio.BackoffCheck.\nLoc
 
 
 def bo_term(r):
-    return gpair(gZ(r["min"]), gZ(r["max"]), gZ(r["jm"]), gZ(r["je"]), gZ(r["att"]), gZ(r["k"]), gZ(r["ke"]),
-                 gZ(r["conv"]), gZ(r["d"]), gZ(r["after"]))
+    return "(%s : bocase)" % gpair(gZ(r["min"]), gZ(r["max"]), gZ(r["jm"]), gZ(r["je"]), gZ(r["att"]), gZ(r["k"]), gZ(r["ke"]),
+                                   gZ(r["conv"]), gZ(r["d"]), gZ(r["after"]))
 
 
 def eval_both(ctx, name, hdr, terms, oracle="oracle", agree="agree", shard=1500):
@@ -66,7 +66,8 @@ def backoff_suite(ctx, vh):
     rows = ctx.vh_jsonl(vh, "backoff", ["-mode", "sequence"])
     if rows is None:
         return
-    terms = [gpair(gZ(r["min"]), gZ(r["max"]), gZ(r["conv"]), glist(gZ(d) for d in r["ds"]), gZ(r["reset"])) for r in rows]
+    terms = ["(%s : seqcase)" % gpair(gZ(r["min"]), gZ(r["max"]), gZ(r["conv"]), glist(gZ(d) for d in r["ds"]), gZ(r["reset"]))
+             for r in rows]
     for r in rows:
         ctx.count(1, nontrivial_key=("seq", r["min"], r["max"]), dist="backoff:sequence")
     bad_oracle, bad_agree = eval_both(ctx, "bo_seq", BO_HDR, terms, "seq_oracle", "seq_agree")
@@ -132,7 +133,8 @@ def rc_term(row):
                     glist(gZ(e["n"]) for e in ev if e["k"] == "reconnect"),
                     glist(gZ(g) for g in gaps))
         out.append(gpair(glist(ins), obs))
-    return gpair(gZ(row["limit"]), gbool(row["norecon"]), gZ(row["min"]), gZ(row["max"]), gbool(row["jitter"]), glist(out))
+    return "(%s : rcase)" % gpair(gZ(row["limit"]), gbool(row["norecon"]), gZ(row["min"]), gZ(row["max"]), gbool(row["jitter"]),
+                                  glist(out))
 
 
 def rc_env_trouble(row):
@@ -259,7 +261,7 @@ def off_term(row, upto=None):
         ws = glist(gpair(gN(k), gN(l if l >= 0 else 999999), gnat(i), gopt(gN(a) if a >= 0 else None)) for k, l, i, a in w)
         cs = glist(gpair(gN(l), gnat(h)) for l, h in c)
         obs.append(gpair(ws, cs))
-    return gpair(glist(off_op_term(o) for o in row["ops"][:n]), glist(obs))
+    return "(%s : ocase)" % gpair(glist(off_op_term(o) for o in row["ops"][:n]), glist(obs))
 
 
 def off_show(row):
